@@ -5,6 +5,9 @@ import os
 # which repairs the implementation under test has: `impl_fixes` (Run/Eval_C19.v) for /repo; C19_FIXES=all_fixes to run the
 # check against a worktree with every fixes/C19-F*.diff applied
 _FX = os.environ.get("C19_FIXES", "impl_fixes")
+# the drivers may hand certificate pools with cyclic issuers to the real code in-process only if C19-F6 is repaired there
+FX6_APPLIED = False
+_ENV = {"C19_FX6": "1"} if (FX6_APPLIED or _FX == "all_fixes") else {}
 
 _GEN = {"internal/zzverif/c19gen/gen.go": "c19/gen/gen.go", "internal/zzverif/c19gen/reload.go": "c19/gen/reload.go"}
 
@@ -31,36 +34,36 @@ P = {
     "streams": [{
         "name": "keystore", "pkg": "./internal/zzverif/c19gen", "test": "TestVerifC19KS", "overlay": _KS,
         "eval_module": "Run.Eval_C19", "check_term": "check_ks " + _FX,
-        "n_quick": 250, "n_thorough": 8000, "findings": _KF,
+        "n_quick": 250, "n_thorough": 8000, "findings": _KF, "env": _ENV,
     }, {
         "name": "truststore", "pkg": "./internal/zzverif/c19gen", "test": "TestVerifC19TS", "overlay": _KS,
         "eval_module": "Run.Eval_C19", "check_term": "check_ts " + _FX,
-        "n_quick": 150, "n_thorough": 4000, "findings": _KF,
+        "n_quick": 150, "n_thorough": 4000, "findings": _KF, "env": _ENV,
     }, {
         "name": "signer", "pkg": "./internal/rules/mechanisms/finalizers", "test": "TestVerifC19Signer",
         "overlay": _ov({"internal/rules/mechanisms/finalizers/zz_verif_c19_test.go": "c19/signer_test.go"}),
         "eval_module": "Run.Eval_C19", "check_term": "check_reload " + _FX,
-        "n_quick": 250, "n_thorough": 6000, "findings": _KF,
+        "n_quick": 250, "n_thorough": 6000, "findings": _KF, "env": _ENV,
     }, {
         "name": "tls", "pkg": "./internal/x/tlsx", "test": "TestVerifC19TLS",
         "overlay": _ov({"internal/x/tlsx/zz_verif_c19_test.go": "c19/tls_test.go"}),
         "eval_module": "Run.Eval_C19", "check_term": "check_reload " + _FX,
-        "n_quick": 150, "n_thorough": 4000, "findings": _KF,
+        "n_quick": 150, "n_thorough": 4000, "findings": _KF, "env": _ENV,
     }, {
         "name": "httpsig", "pkg": "./internal/rules/endpoint/authstrategy", "test": "TestVerifC19HttpSig",
         "overlay": _ov({"internal/rules/endpoint/authstrategy/zz_verif_c19_test.go": "c19/httpsig_test.go"}),
         "eval_module": "Run.Eval_C19", "check_term": "check_reload " + _FX,
-        "n_quick": 200, "n_thorough": 6000, "findings": _KF,
+        "n_quick": 200, "n_thorough": 6000, "findings": _KF, "env": _ENV,
     }, {
         "name": "rules", "pkg": "./internal/rules", "test": "TestVerifC19Rules",
         "overlay": _ov({"internal/rules/zz_verif_c19_test.go": "c19/rules_test.go"}),
         "eval_module": "Run.Eval_C19", "check_term": "check_rules " + _FX,
-        "n_quick": 300, "n_thorough": 10000, "findings": _KF, "shard": 150,
+        "n_quick": 300, "n_thorough": 10000, "findings": _KF, "env": _ENV, "shard": 150,
     }, {
         "name": "fs", "pkg": "./internal/rules/provider/filesystem", "test": "TestVerifC19FS",
         "overlay": _ov({"internal/rules/provider/filesystem/zz_verif_c19_test.go": "c19/fs_test.go"}),
         "eval_module": "Run.Eval_C19", "check_term": "check_fs " + _FX,
-        "n_quick": 200, "n_thorough": 6000, "findings": _KF,
+        "n_quick": 200, "n_thorough": 6000, "findings": _KF, "env": _ENV,
     }],
     "rule": "seven streams against the real code. keystore/truststore: compositions of 24 fixture PEM blocks (RSA 1024-4096, EC P-224..P-521, "
             "ed25519, encrypted PKCS#8, public key, certificate chains, expired / wrong-usage / cross-issued certificates, X-Key-ID headers) "
